@@ -233,3 +233,28 @@ def check_scalar32(ctx, P, which, rule_prefix="sc"):
     ctx.check(okb and not wr, rule_prefix + "-bounds", inst, "final digits within %s; %d overflow asserts discharged" % ([bounds.fmt_iv(v) for v in (dv[0], dv[10], dv[11])], len([a for a in r.asserts if a[1].startswith("overflow:")])),
               "%s: the final digits are not reduced 21-bit digits where they are packed into bytes (a carry step is missing), or an operation can overflow: digits %s; undischarged %s; wrapping %s" % (inst, [bounds.fmt_iv(v) for v in dv], [(f[1], bounds.fmt_iv(f[2]) if f[2] else None) for f in fails[:3]], [(w[0], bounds.fmt_iv(w[2])) for w in wr[:3]]),
               where=fn.where(), key="%s-bounds:%s" % (rule_prefix, inst))
+
+
+def check_scalar_consts(ctx, P, backend):
+    """public constants of the scalar type: Scalar::ZERO is the zero scalar in the backend's representation"""
+    path = "curve25519::scalar::%s::Scalar::ZERO" % backend
+    try:
+        v = P.const(path)
+    except Exception as e:
+        ctx.lost("table", path, str(e))
+        return
+
+    def flat(x):
+        if isinstance(x, (list, tuple)):
+            for y in x:
+                for z in flat(y):
+                    yield z
+        elif isinstance(x, dict):
+            for y in x.values():
+                for z in flat(y):
+                    yield z
+        else:
+            yield x
+    vals = [x for x in flat(v) if isinstance(x, int) and not isinstance(x, bool)]
+    n = 32 if backend == "scalar32" else 5
+    ctx.check(len(vals) == n and all(x == 0 for x in vals), "table", path, "Scalar::ZERO is all-zero (%d words)" % n, "%s is not the zero scalar: %s" % (path, vals[:8]), where=P.consts[path].get("span"), key="table:%s" % path)
